@@ -3,7 +3,7 @@ from __future__ import annotations
 
 import ast
 
-from ..astq import U, kwarg, statements
+from ..astq import U, kwarg, statements, local_defs
 from ..effects import rng_draws
 from ..index import AnalysisError, walk_no_nested
 from ..interp import Ext, FuncRef, Obj
@@ -148,6 +148,48 @@ def r4_individual_sampler(ctx):
     ctx.check(ok, "C07.R4", g, g.node, "one uniform draw per individual (position-indexed)", "individuals share a uniform draw", construct="draw per individual")
 
 
+def r7_no_cohort_wide_decision(ctx):
+    """In the whole-cohort part of the personalisation algorithms the state holds every subject: a control decision that reads it
+    (whatever the reduction: `.all()`, `.any()`, `.max()` ...) makes what happens to one subject depend on the data of the others."""
+    import re
+    ctx.rule("C07.R7", "no control decision of the whole-cohort personalisation code reads the (cohort-wide) state", 10)
+    ix = ctx.ix
+    cg = callgraph(ctx)
+    job = ix.func("leaspy.algo.personalize.scipy_minimize", "ScipyMinimizeAlgorithm._get_individual_parameters_patient", "C07.R7")
+    per_subject = set(cg.reach([job]))
+    STATE = re.compile(r"(^|[._])states?$")
+
+    def state_reads(e, defs, depth=0):
+        out = []
+        for n in ast.walk(e):
+            if isinstance(n, ast.Call) and isinstance(n.func, ast.Attribute) and n.func.attr in ("get_tensor_value", "get_tensor_values") and STATE.search(U(n.func.value)):
+                out.append(n)
+            elif isinstance(n, ast.Subscript) and STATE.search(U(n.value)):
+                out.append(n)
+            elif isinstance(n, ast.Name) and depth < 4:
+                for v in defs.get(n.id, []):
+                    if v is not None:
+                        out.extend(state_reads(v, defs, depth + 1))
+        return out
+
+    n_tests = 0
+    for (m, q), f in sorted(ix.funcs.items()):
+        if not m.startswith("leaspy.algo.personalize") or (m, q) in per_subject:
+            continue
+        defs = local_defs(f.node)
+        for n in ast.walk(f.node):
+            tests = [n.test] if isinstance(n, (ast.If, ast.While, ast.IfExp, ast.Assert)) else list(n.ifs) if isinstance(n, ast.comprehension) else []
+            for t in tests:
+                n_tests += 1
+                rd = state_reads(t, defs)
+                if rd:
+                    ctx.violation("C07.R7", f, t, f"the test `{U(t)[:80]}` reads `{U(rd[0])[:60]}` of the state shared by all subjects: what is done for one subject (initial point, "
+                                  "kept draws, number of steps) then depends on the data of the other subjects")
+                else:
+                    ctx.ok("C07.R7", f, t, "test independent of the cohort-wide state")
+    ctx.extra["C07.R7_tests"] = n_tests
+
+
 def rules(ctx):
     r1_separability(ctx)
     r2_one_state_per_subject(ctx)
@@ -161,6 +203,7 @@ def rules(ctx):
     # would make one subject's estimate depend on the other subjects' chains (same rule as C17.R2)
     from .c17 import r2_burn_in
     r2_burn_in(ctx, rid="C07.R6", title="draws are kept according to the iteration count only (never according to the cohort's state)")
+    r7_no_cohort_wide_decision(ctx)
     ctx.trust("joblib.Parallel preserves the order of its generator and runs each call on the arguments given")
     ctx.assume("population tensors broadcast along trailing axes (never aligned with the individual axis by coincidence)")
 
@@ -173,5 +216,6 @@ VARIANTS = [
     V("job-draws", "src/leaspy/algo/personalize/scipy_minimize.py", "        obj = self.obj_with_jac if with_jac else self.obj_no_jac\n", "        obj = self.obj_with_jac if with_jac else self.obj_no_jac\n        _ = torch.rand(())\n", "C07.R3"),
     V("shared-std", "src/leaspy/samplers/gibbs.py", "        return (self.n_patients,)\n", "        return ()\n", "C07.R4"),
     V("model-mixes-individuals", "src/leaspy/models/time_reparametrized.py", "        return alpha * (t - tau)\n", "        return alpha * (t - tau.mean())\n", "C07.R1"),
+    V("cohort-wide-restart", "src/leaspy/algo/personalize/mcmc.py", "        return state\n", "        if not torch.isfinite(state.get_tensor_value('nll_attach_ind')).all():\n            state.put_individual_latent_variables(LatentVariableInitType.PRIOR_SAMPLES, n_individuals=dataset.n_individuals)\n        return state\n", "C07.R7"),
     V("silent-rename-states", "src/leaspy/algo/personalize/scipy_minimize.py", "states", "per_subject", None, count=6),
 ]
